@@ -967,6 +967,11 @@ def _mutate_in_place_step(ctx, c, rng, P, N, m1, m2):
     d = c["direction"]
     _mt_call(ctx, "measure_thickness_cpu(points/normals/labels edited in place)", c, P, N, m1, m2, c["voxel"], c["max_nm"], d)
     src, tgt = (m1, m2) if d == "1to2" else (m2, m1)
+    if not (src.any() and tgt.any()):
+        return
+    Te = orc.Table(P, N, src, tgt, max_vox, c["ang"])
+    if Te.margin < EPS or Te.max_candidates() >= CAP:        # the edit left the quantifier: no kernel call to judge
+        return
     md = np.full((n, CAP), -1.0); mi = np.full((n, CAP), -1, dtype=np.int64); mc = np.zeros(n, dtype=np.int64)
     ctx.numba.set_num_threads(ctx.nt)
     try:
@@ -1096,13 +1101,15 @@ def _kernel_part(ctx, c, rng, P, N, m1, m2):
     # -- buffers REUSED without re-initialising, roles of the two surfaces exchanged: the rows of the new sources hold the counts and
     #    candidates of the previous call; only the candidates of the current call count (judged by the call monitor)
     ti2 = np.flatnonzero(src)
-    nb.set_num_threads(ctx.nt if c["i"] % 2 else 1)
-    try:
-        ctx.call("find_matches_parallel(reused buffers, roles exchanged)", ctx.mt.find_matches_parallel, P, N, tgt, src, ti2, max_vox, cosv,
-                 oN[0], oN[1], oN[2])
-    finally:
-        nb.set_num_threads(ctx.nt_default)
-    ctx.extra["kernel_calls_on_reused_buffers"] = ctx.extra.get("kernel_calls_on_reused_buffers", 0) + 1
+    T2 = orc.Table(P, N, tgt, src, max_vox, c["ang"])
+    if T2.margin >= EPS and T2.max_candidates() < CAP and T2.max_candidates() <= cap:      # inside the quantifier with exchanged roles too
+        nb.set_num_threads(ctx.nt if c["i"] % 2 else 1)
+        try:
+            ctx.call("find_matches_parallel(reused buffers, roles exchanged)", ctx.mt.find_matches_parallel, P, N, tgt, src, ti2, max_vox, cosv,
+                     oN[0], oN[1], oN[2])
+        finally:
+            nb.set_num_threads(ctx.nt_default)
+        ctx.extra["kernel_calls_on_reused_buffers"] = ctx.extra.get("kernel_calls_on_reused_buffers", 0) + 1
     ctx.extra["kernel_thread_pairs_compared"] = ctx.extra.get("kernel_thread_pairs_compared", 0) + 1
     ctx.extra["kernel_bytes_compared"] = ctx.extra.get("kernel_bytes_compared", 0) + sum(int(a.nbytes) for a in o1)
 
